@@ -529,11 +529,22 @@ impl<'a> SelectedOperation<'a> {
     }
 
     pub fn recv<T>(self, r: &Receiver<T>) -> Result<T, RecvError> {
+        // completing the operation disarms the drop check below
+        std::mem::forget(self);
         match r.try_recv() {
             Ok(m) => Ok(m),
             Err(TryRecvError::Disconnected) => Err(RecvError),
             // lost the message to another consumer (not possible with a single consumer): block
             Err(TryRecvError::Empty) => r.recv(),
+        }
+    }
+}
+
+/// Like the real crate: a selected operation must be completed.
+impl<'a> Drop for SelectedOperation<'a> {
+    fn drop(&mut self) {
+        if !std::thread::panicking() {
+            panic!("dropped `SelectedOperation` without completing the operation");
         }
     }
 }
